@@ -2,6 +2,7 @@ package main
 
 import (
 	"fmt"
+	"strings"
 
 	"golang.org/x/tools/go/ssa"
 )
@@ -56,7 +57,30 @@ func (m *Machine) trackable(fr *frame) bool {
 	if fr.g.atomicDepth > 0 {
 		return false
 	}
+	// accesses made by harness code (stubs, monitors, the harness body) are not the program's
+	if m.isHarnessFn(fr.fn) {
+		return false
+	}
 	return true
+}
+
+func (m *Machine) isHarnessFn(fn *ssa.Function) bool {
+	if v, ok := m.harnessFnCache[fn]; ok {
+		return v
+	}
+	f := fn
+	for f.Parent() != nil {
+		f = f.Parent()
+	}
+	v := false
+	if f.Pos().IsValid() {
+		v = strings.Contains(m.prog.Fset.Position(f.Pos()).Filename, "zz_verif_")
+	}
+	if m.harnessFnCache == nil {
+		m.harnessFnCache = map[*ssa.Function]bool{}
+	}
+	m.harnessFnCache[fn] = v
+	return v
 }
 
 func (m *Machine) checkShadow(sc *shadowCell, fr *frame, write bool, site string, what string) {
